@@ -1,3 +1,3 @@
 From Coq Require Import Extraction ExtrOcamlBasic.
-From L60870 Require Import Apci.Reasm Apci.Deliver.
-Extraction "model_apci.ml" recv_call rinit feed bytes_run on_frame on_frames.
+From L60870 Require Import Apci.Reasm Apci.Deliver Apci.KBuf.
+Extraction "model_apci.ml" recv_call rinit feed bytes_run on_frame on_frames check_seq is_full push kempty outstanding.
